@@ -187,6 +187,23 @@ def range_bounds(r, n):
     return None
 
 
+@ax('std::iter::range::<impl std::iter::Iterator for std::ops::Range<A>>::next',
+    note='(a..b).next() over integers: Some(a) and a += 1 while a < b, else None')
+def a_range_next(ev, st, info, args):
+    r = ev.deref(args[0], st) if args[0][0] == 'ref' else args[0]
+    if not (r[0] == 'adt' and r[1] == 'std::ops::Range'):
+        return [(st, ('opaque', 'next on a range that is not an explicit start..end value'))]
+    lo, hi = T.adt_field(r, 'start'), T.adt_field(r, 'end')
+    outs = []
+    for s2, val in fork_bool(st, T.cmp('Lt', lo, hi)):
+        if val:
+            write_ref(ev, s2, info, args[0], T.adt_with(r, 'start', T.add(lo, I(1))))
+            outs.append((s2, some(lo)))
+        else:
+            outs.append((s2, NONE))
+    return outs
+
+
 @ax('std::ops::RangeInclusive::<Idx>::new', note='RangeInclusive::new(a,b) is a..=b')
 def a_range_incl(ev, st, info, args):
     return [(st, T.mk_adt('$RangeInclusive', 'R', [('start', args[0]), ('end', args[1])]))]
@@ -1346,6 +1363,8 @@ def a_fn_call(ev, st, info, args):
         cnt = ('X', 'apply_count')
         k = st.store.get(cnt, T.I(0))
         st.store[cnt] = T.add(k, T.I(1))
+        log = ('X', 'apply_log')
+        st.store[log] = ('tuple', tuple(st.store.get(log, ('tuple', ()))[1]) + (('tuple', tuple([f] + actual)),))
         return [(st, ('call', 'apply#%d' % (k[1] if k[0] == 'int' else -1), tuple([f] + actual)))]
     return [(st, ('opaque', 'call of an unknown function value'))]
 
